@@ -55,8 +55,25 @@ static enum eventloop_return handle_events(struct eventloop_epoll *loop, int num
 		loop->num_pending_events = num_events - i - 1;
 
 		if (unlikely((events[i].events & ~(EPOLLIN | EPOLLOUT)) != 0)) {
-			if (ev->error_function(ev) == EL_ABORT_LOOP) {
-				return EL_ABORT_LOOP;
+			/*
+			 * What arrived before the hang-up or the error is input like
+			 * any other and must not depend on how the two were reported:
+			 * read it before the error is handled.
+			 */
+			if (((events[i].events & EPOLLIN) != 0) && (ev->read_function != NULL)) {
+				enum eventloop_return ret = ev->read_function(ev);
+				if (unlikely(ret == EL_ABORT_LOOP)) {
+					return EL_ABORT_LOOP;
+				}
+				if (ret == EL_EVENT_REMOVED) {
+					continue;
+				}
+			}
+			/* The read callback may have closed the connection already. */
+			if (likely(loop->current_ev != NULL)) {
+				if (ev->error_function(ev) == EL_ABORT_LOOP) {
+					return EL_ABORT_LOOP;
+				}
 			}
 		} else {
 			if (events[i].events & EPOLLIN) {
